@@ -330,8 +330,31 @@ func modes() []mode {
 			ctx, _ := peer.Ctx(c, -1)
 			return ctx, func() { time.Sleep(40 * time.Millisecond); c.Abort() }
 		}, true},
+		// a long time-out is in force (as by default) and the call is ended earlier: it must end then, not at the time-out
+		{"abort-with-long-timeout", func(c *core.Client) (context.Context, func()) {
+			ctx, _ := peer.Ctx(c, longTimeout)
+			return ctx, func() { time.Sleep(40 * time.Millisecond); c.Abort() }
+		}, true},
+		{"cancel-with-long-timeout", func(c *core.Client) (context.Context, func()) {
+			ctx, _ := peer.Ctx(c, longTimeout)
+			ctx, cancel := context.WithCancel(ctx)
+			return ctx, func() { time.Sleep(40 * time.Millisecond); cancel() }
+		}, true},
+		// the caller's context has a late deadline of its own: the configured time-out still applies
+		{"client-timeout-under-a-later-context-deadline", func(c *core.Client) (context.Context, func()) {
+			ctx, _ := peer.Ctx(c, 150*time.Millisecond)
+			ctx, cancel := context.WithTimeout(ctx, longTimeout)
+			_ = cancel
+			return ctx, func() {}
+		}, true},
 	}
 }
+
+// longTimeout is far beyond the instant at which the modes above end their call.
+const longTimeout = 30 * time.Second
+
+// prompt is the generous bound for "ends when it is ended, not at the long time-out".
+const prompt = 6 * time.Second
 
 type result struct {
 	resp []byte
@@ -494,9 +517,13 @@ func judge(c *h.Case, sigBase string, m mode, silentFault bool, ch chan result, 
 		}
 		return false
 	}
-	res, ok := await(ch, watchdog)
+	bound := watchdog
+	if strings.Contains(m.name, "long-timeout") || strings.Contains(m.name, "later-context-deadline") {
+		bound = prompt
+	}
+	res, ok := await(ch, bound)
 	if !ok {
-		c.Violation("call-never-returned:"+sigBase+":"+m.name, fmt.Sprintf("still pending %v after the event that had to end it", watchdog), rep)
+		c.Violation("call-never-returned:"+sigBase+":"+m.name, fmt.Sprintf("still pending %v after the event that had to end it (a %v time-out or deadline is the only thing left to end it)", bound, longTimeout), rep)
 		return false
 	}
 	r.StatMax("max_return_ms:"+m.name, res.took.Milliseconds())
@@ -1570,6 +1597,17 @@ func cancelledBeforeSend(c *h.Case, kind string) {
 			return
 		}
 		cancel()
+	}
+	if kind == "udp" {
+		// requests no datagram can carry are refused by the client itself and must leave nothing behind
+		for i := 0; i < 40; i++ {
+			ctx, _ := peer.Ctx(client, 2*time.Second)
+			if _, err := client.Request(ctx, make([]byte, 70000)); err == nil {
+				c.Violation("call-succeeded-without-response:udp:oversized-request", "a 70000-byte request over udp returned without error", rep)
+				break
+			}
+			r.Eval(1)
+		}
 	}
 	// answers to calls that were sent before the cancellation may still be on their way
 	time.Sleep(50 * time.Millisecond)
